@@ -260,6 +260,87 @@ def gvhugr(c):
         gtab(c["tab"]), ggraph(c["main"]), glist(ggraph(g) for g in c["subs"]))
 
 
+# ----------------------------------------------------------------------------- program -> Coq literal (model/Builder.v)
+
+
+class OutOfModel(Exception):
+    """the program uses a builder call that model/Builder.v does not cover"""
+
+
+def ser_ty(t):
+    return json.loads(progs.mk_ty(t)._to_serial_root().model_dump_json())
+
+
+def conv_opspec(o, tab: Tab):
+    from hugr import ops
+    k = o[0]
+    if k == "noop":
+        return "ONoop"
+    if k == "mktup":
+        return "OMakeTuple"
+    if k == "untup":
+        return "OUnpackTuple"
+    if k == "callind":
+        raise OutOfModel("CallIndirect")
+    op = progs.mk_op(o)
+    if isinstance(op, ops.Tag):
+        rows = [[tab.ty(json.loads(t._to_serial_root().model_dump_json())) for t in r] for r in op.sum_ty.variant_rows]
+        return gapp("OTag", gN(op.tag), grows(rows), gN(tab.sum_of(rows)))
+    sig = op.outer_signature()
+    ins = [tab.ty(json.loads(t._to_serial_root().model_dump_json())) for t in sig.input]
+    outs = [tab.ty(json.loads(t._to_serial_root().model_dump_json())) for t in sig.output]
+    return gapp("OFixed", grow(ins), grow(outs))
+
+
+def gwids(ws):
+    return glist(gN(w) for w in ws)
+
+
+def conv_region(r, tab):
+    return gapp("Region", gwids(r["ins"]), conv_stmts(r["stmts"], tab), gwids(r["outs"]))
+
+
+def conv_stmts(sts, tab):
+    out = "SNil"
+    for st in reversed(sts):
+        out = gapp("SCons", conv_stmt(st, tab), out)
+    return out
+
+
+def gref(r):
+    return {"in": "RIn", "out": "ROut"}.get(r) or gapp("RStmt", gN(r))
+
+
+def conv_stmt(st, tab):
+    k = st["k"]
+    if k == "op":
+        return gapp("SOp", gN(st["id"]), conv_opspec(st["op"], tab), gwids(st["args"]), gwids(st.get("outs", [])))
+    if k == "load":
+        v = json.loads(progs.mk_val(st["val"])._to_serial_root().model_dump_json())
+        subs = []
+        cv = conv_val(v, tab, subs)
+        if subs:
+            raise OutOfModel("function constant")
+        cp = "CRoot" if st.get("const_parent", "here") == "root" else "CHere"
+        (w,) = st["outs"]
+        return gapp("SLoad", gN(st["id"]), gval(cv), cp, gN(w))
+    if k == "nested":
+        if st.get("insert"):
+            raise OutOfModel("insert_nested")
+        return gapp("SNested", gN(st["id"]), gwids(st["args"]), conv_region(st["body"], tab), gwids(st.get("outs", [])))
+    if k == "order":
+        return gapp("SOrder", gref(st["src"]), gref(st["dst"]))
+    raise OutOfModel(k)
+
+
+def conv_prog(p, tab: Tab):
+    """the Coq `prog` literal of a program, or OutOfModel"""
+    if p["root"] != "dfg":
+        raise OutOfModel("root " + p["root"])
+    ins = [tab.ty(ser_ty(t)) for t in p["ins"]]
+    return gapp("PDfg", grow(ins), conv_region(p["body"], tab))
+
+
 # ----------------------------------------------------------------------------- the design-time transcription (cross-check)
 
 _FAKE = None
@@ -587,6 +668,10 @@ class C01(fw.Prop):
         roots = [None, None, None, "dfg", "module", "func", "loop", "cond", "cfg"]
         for i in range(n):
             cases.append({"seed": rng.randrange(1 << 30), "root": roots[i % len(roots)]})
+        # programs inside the builder model (model/Builder.v): the tie for the theorems
+        for i in range(120 if tier == "quick" else 1200):
+            cases.append({"seed": rng.randrange(1 << 30), "root": "dfg", "allow": ["nested", "order", "md"],
+                          "size": rng.choice([5, 8, 10, 14]), "depth": rng.choice([2, 3, 4, 5])})
         return cases
 
     def program(self, case):
@@ -599,6 +684,8 @@ class C01(fw.Prop):
             kw["size"] = case["size"]
         if case.get("depth") is not None:
             kw["max_depth"] = case["depth"]
+        if case.get("allow") is not None:
+            kw["allow"] = tuple(case["allow"])
         return progs.gen_program(random.Random(case["seed"]), case.get("root"), **kw)
 
     def observe(self, case, ctx):
@@ -627,7 +714,16 @@ class C01(fw.Prop):
         obs["_conv"] = c
         if obs["fake"] is not None:
             pass
-        lit = gapp("CDoc", gvhugr(c), gbool(obs["same"]), gbool(obs["fake"]))
+        lit = None
+        if obs["prog"]["root"] == "dfg":
+            try:
+                pl = conv_prog(obs["prog"], c["tab"])      # may intern further types: before the table is printed
+                lit = gapp("CProg", pl, gvhugr(c), gbool(obs["same"]), gbool(obs["fake"]))
+                obs["in_model"] = True
+            except OutOfModel as e:
+                obs["out_of_model"] = str(e)
+        if lit is None:
+            lit = gapp("CDoc", gvhugr(c), gbool(obs["same"]), gbool(obs["fake"]))
         ctx.__dict__.setdefault("c01_fake", []).append((case, obs["fake"], obs["fake_msg"], lit if not obs["fake"] else None))
         return lit
 
@@ -681,7 +777,7 @@ class C01(fw.Prop):
 
     def distribution(self, cases, observations):
         d = {"roots": {}, "nodes": [], "stmt_kinds": {}, "nonlocal_edges": 0, "order_edges": 0, "fake_rejects": 0,
-             "builders_raised": 0}
+             "builders_raised": 0, "inside_builder_model": 0, "out_of_model": {}}
         for c, o in zip(cases, observations):
             if "doc" not in o:
                 d["builders_raised"] += 1
@@ -692,6 +788,9 @@ class C01(fw.Prop):
             par = [n["parent"] for n in o["doc"]["nodes"]]
             d["nonlocal_edges"] += sum(1 for e in o["doc"]["edges"] if par[e[0][0]] != par[e[1][0]])
             d["fake_rejects"] += not o["fake"]
+            d["inside_builder_model"] += bool(o.get("in_model"))
+            if o.get("out_of_model"):
+                d["out_of_model"][o["out_of_model"]] = d["out_of_model"].get(o["out_of_model"], 0) + 1
             for k, v in progs.kinds_of(p).items():
                 d["stmt_kinds"][k] = d["stmt_kinds"].get(k, 0) + v
         ns = sorted(d["nodes"])
